@@ -36,7 +36,8 @@ def flagView (s : St) : FlagView :=
     · split <;> split <;> rfl
     · rfl
 
-@[simp] theorem callView_modReq (s : St) (r : Nat) (f : Req → Req) : callView (modReq s r f) = callView s := rfl
+@[simp] theorem callView_modCore (s : St) (r : Nat) (f : ReqCore → ReqCore) : callView (modCore s r f) = callView s := rfl
+@[simp] theorem callView_modMeta (s : St) (r : Nat) (f : ReqMeta → ReqMeta) : callView (modMeta s r f) = callView s := rfl
 @[simp] theorem callView_cancelReq (s : St) (r : Nat) (c : Cause) : callView (cancelReq s r c) = callView s := rfl
 @[simp] theorem callView_toP2 (s : St) (r : Nat) : callView (toP2 s r) = callView s := rfl
 
@@ -87,17 +88,29 @@ theorem callView_foldl_cancel (l : List (Nat × Nat)) (c : Cause) (s : St) :
 @[simp] theorem tail_panicRetire (s : St) : (tail s).panicRetire = s.panicRetire :=
   congrArg CallView.panicRetire (callView_tail s)
 
-@[simp] theorem modReq_calls (s : St) (r : Nat) (f : Req → Req) : (modReq s r f).calls = s.calls :=
-  congrArg CallView.calls (callView_modReq s r f)
+@[simp] theorem modCore_calls (s : St) (r : Nat) (f : ReqCore → ReqCore) : (modCore s r f).calls = s.calls :=
+  congrArg CallView.calls (callView_modCore s r f)
 
-@[simp] theorem modReq_outCalls (s : St) (r : Nat) (f : Req → Req) : (modReq s r f).outCalls = s.outCalls :=
-  congrArg CallView.outCalls (callView_modReq s r f)
+@[simp] theorem modCore_outCalls (s : St) (r : Nat) (f : ReqCore → ReqCore) : (modCore s r f).outCalls = s.outCalls :=
+  congrArg CallView.outCalls (callView_modCore s r f)
 
-@[simp] theorem modReq_respLog (s : St) (r : Nat) (f : Req → Req) : (modReq s r f).respLog = s.respLog :=
-  congrArg CallView.respLog (callView_modReq s r f)
+@[simp] theorem modCore_respLog (s : St) (r : Nat) (f : ReqCore → ReqCore) : (modCore s r f).respLog = s.respLog :=
+  congrArg CallView.respLog (callView_modCore s r f)
 
-@[simp] theorem modReq_panicRetire (s : St) (r : Nat) (f : Req → Req) : (modReq s r f).panicRetire = s.panicRetire :=
-  congrArg CallView.panicRetire (callView_modReq s r f)
+@[simp] theorem modCore_panicRetire (s : St) (r : Nat) (f : ReqCore → ReqCore) : (modCore s r f).panicRetire = s.panicRetire :=
+  congrArg CallView.panicRetire (callView_modCore s r f)
+
+@[simp] theorem modMeta_calls (s : St) (r : Nat) (f : ReqMeta → ReqMeta) : (modMeta s r f).calls = s.calls :=
+  congrArg CallView.calls (callView_modMeta s r f)
+
+@[simp] theorem modMeta_outCalls (s : St) (r : Nat) (f : ReqMeta → ReqMeta) : (modMeta s r f).outCalls = s.outCalls :=
+  congrArg CallView.outCalls (callView_modMeta s r f)
+
+@[simp] theorem modMeta_respLog (s : St) (r : Nat) (f : ReqMeta → ReqMeta) : (modMeta s r f).respLog = s.respLog :=
+  congrArg CallView.respLog (callView_modMeta s r f)
+
+@[simp] theorem modMeta_panicRetire (s : St) (r : Nat) (f : ReqMeta → ReqMeta) : (modMeta s r f).panicRetire = s.panicRetire :=
+  congrArg CallView.panicRetire (callView_modMeta s r f)
 
 @[simp] theorem cancelReq_calls (s : St) (r : Nat) (c : Cause) : (cancelReq s r c).calls = s.calls :=
   congrArg CallView.calls (callView_cancelReq s r c)
@@ -170,5 +183,228 @@ theorem callView_foldl_cancel (l : List (Nat × Nat)) (c : Cause) (s : St) :
 
 @[simp] theorem setNotif_panicRetire (s : St) (w : Who) (f : Notif → Notif) : (setNotif s w f).panicRetire = s.panicRetire :=
   congrArg CallView.panicRetire (callView_setNotif s w f)
+
+
+/-! Request-side fields are untouched by the call/notification/tail helpers. -/
+
+@[simp] theorem tail_cores (s : St) : (tail s).cores = s.cores := by
+  unfold tail finish closeTransport; repeat' split
+  all_goals rfl
+
+@[simp] theorem tail_metas (s : St) : (tail s).metas = s.metas := by
+  unfold tail finish closeTransport; repeat' split
+  all_goals rfl
+
+@[simp] theorem tail_incoming (s : St) : (tail s).incoming = s.incoming := by
+  unfold tail finish closeTransport; repeat' split
+  all_goals rfl
+
+@[simp] theorem tail_byID (s : St) : (tail s).byID = s.byID := by
+  unfold tail finish closeTransport; repeat' split
+  all_goals rfl
+
+@[simp] theorem tail_panicIncoming (s : St) : (tail s).panicIncoming = s.panicIncoming := by
+  unfold tail finish closeTransport; repeat' split
+  all_goals rfl
+
+@[simp] theorem tail_reader (s : St) : (tail s).reader = s.reader := by
+  unfold tail finish closeTransport; repeat' split
+  all_goals rfl
+
+@[simp] theorem tail_queue (s : St) : (tail s).queue = s.queue := by
+  unfold tail finish closeTransport; repeat' split
+  all_goals rfl
+
+@[simp] theorem tail_disp (s : St) : (tail s).disp = s.disp := by
+  unfold tail finish closeTransport; repeat' split
+  all_goals rfl
+
+@[simp] theorem tail_handlerRunning (s : St) : (tail s).handlerRunning = s.handlerRunning := by
+  unfold tail finish closeTransport; repeat' split
+  all_goals rfl
+
+@[simp] theorem tail_cancels (s : St) : (tail s).cancels = s.cancels := by
+  unfold tail finish closeTransport; repeat' split
+  all_goals rfl
+
+@[simp] theorem tail_clock (s : St) : (tail s).clock = s.clock := by
+  unfold tail finish closeTransport; repeat' split
+  all_goals rfl
+
+@[simp] theorem modCall_cores (s : St) (n : Nat) (f : Call → Call) : (modCall s n f).cores = s.cores := by
+  rfl
+
+@[simp] theorem modCall_metas (s : St) (n : Nat) (f : Call → Call) : (modCall s n f).metas = s.metas := by
+  rfl
+
+@[simp] theorem modCall_incoming (s : St) (n : Nat) (f : Call → Call) : (modCall s n f).incoming = s.incoming := by
+  rfl
+
+@[simp] theorem modCall_byID (s : St) (n : Nat) (f : Call → Call) : (modCall s n f).byID = s.byID := by
+  rfl
+
+@[simp] theorem modCall_panicIncoming (s : St) (n : Nat) (f : Call → Call) : (modCall s n f).panicIncoming = s.panicIncoming := by
+  rfl
+
+@[simp] theorem modCall_reader (s : St) (n : Nat) (f : Call → Call) : (modCall s n f).reader = s.reader := by
+  rfl
+
+@[simp] theorem modCall_queue (s : St) (n : Nat) (f : Call → Call) : (modCall s n f).queue = s.queue := by
+  rfl
+
+@[simp] theorem modCall_disp (s : St) (n : Nat) (f : Call → Call) : (modCall s n f).disp = s.disp := by
+  rfl
+
+@[simp] theorem modCall_handlerRunning (s : St) (n : Nat) (f : Call → Call) : (modCall s n f).handlerRunning = s.handlerRunning := by
+  rfl
+
+@[simp] theorem modCall_cancels (s : St) (n : Nat) (f : Call → Call) : (modCall s n f).cancels = s.cancels := by
+  rfl
+
+@[simp] theorem modCall_clock (s : St) (n : Nat) (f : Call → Call) : (modCall s n f).clock = s.clock := by
+  rfl
+
+@[simp] theorem setNotif_cores (s : St) (w : Who) (f : Notif → Notif) : (setNotif s w f).cores = s.cores := by
+  cases w <;> rfl
+
+@[simp] theorem setNotif_metas (s : St) (w : Who) (f : Notif → Notif) : (setNotif s w f).metas = s.metas := by
+  cases w <;> rfl
+
+@[simp] theorem setNotif_incoming (s : St) (w : Who) (f : Notif → Notif) : (setNotif s w f).incoming = s.incoming := by
+  cases w <;> rfl
+
+@[simp] theorem setNotif_byID (s : St) (w : Who) (f : Notif → Notif) : (setNotif s w f).byID = s.byID := by
+  cases w <;> rfl
+
+@[simp] theorem setNotif_panicIncoming (s : St) (w : Who) (f : Notif → Notif) : (setNotif s w f).panicIncoming = s.panicIncoming := by
+  cases w <;> rfl
+
+@[simp] theorem setNotif_reader (s : St) (w : Who) (f : Notif → Notif) : (setNotif s w f).reader = s.reader := by
+  cases w <;> rfl
+
+@[simp] theorem setNotif_queue (s : St) (w : Who) (f : Notif → Notif) : (setNotif s w f).queue = s.queue := by
+  cases w <;> rfl
+
+@[simp] theorem setNotif_disp (s : St) (w : Who) (f : Notif → Notif) : (setNotif s w f).disp = s.disp := by
+  cases w <;> rfl
+
+@[simp] theorem setNotif_handlerRunning (s : St) (w : Who) (f : Notif → Notif) : (setNotif s w f).handlerRunning = s.handlerRunning := by
+  cases w <;> rfl
+
+@[simp] theorem setNotif_cancels (s : St) (w : Who) (f : Notif → Notif) : (setNotif s w f).cancels = s.cancels := by
+  cases w <;> rfl
+
+@[simp] theorem setNotif_clock (s : St) (w : Who) (f : Notif → Notif) : (setNotif s w f).clock = s.clock := by
+  cases w <;> rfl
+
+@[simp] theorem retireIn_cores (s : St) (n : Nat) (r : Res) : (retireIn s n r).cores = s.cores := by
+  unfold retireIn; repeat' split
+  all_goals rfl
+
+@[simp] theorem retireIn_metas (s : St) (n : Nat) (r : Res) : (retireIn s n r).metas = s.metas := by
+  unfold retireIn; repeat' split
+  all_goals rfl
+
+@[simp] theorem retireIn_incoming (s : St) (n : Nat) (r : Res) : (retireIn s n r).incoming = s.incoming := by
+  unfold retireIn; repeat' split
+  all_goals rfl
+
+@[simp] theorem retireIn_byID (s : St) (n : Nat) (r : Res) : (retireIn s n r).byID = s.byID := by
+  unfold retireIn; repeat' split
+  all_goals rfl
+
+@[simp] theorem retireIn_panicIncoming (s : St) (n : Nat) (r : Res) : (retireIn s n r).panicIncoming = s.panicIncoming := by
+  unfold retireIn; repeat' split
+  all_goals rfl
+
+@[simp] theorem retireIn_reader (s : St) (n : Nat) (r : Res) : (retireIn s n r).reader = s.reader := by
+  unfold retireIn; repeat' split
+  all_goals rfl
+
+@[simp] theorem retireIn_queue (s : St) (n : Nat) (r : Res) : (retireIn s n r).queue = s.queue := by
+  unfold retireIn; repeat' split
+  all_goals rfl
+
+@[simp] theorem retireIn_disp (s : St) (n : Nat) (r : Res) : (retireIn s n r).disp = s.disp := by
+  unfold retireIn; repeat' split
+  all_goals rfl
+
+@[simp] theorem retireIn_handlerRunning (s : St) (n : Nat) (r : Res) : (retireIn s n r).handlerRunning = s.handlerRunning := by
+  unfold retireIn; repeat' split
+  all_goals rfl
+
+@[simp] theorem retireIn_cancels (s : St) (n : Nat) (r : Res) : (retireIn s n r).cancels = s.cancels := by
+  unfold retireIn; repeat' split
+  all_goals rfl
+
+@[simp] theorem retireIn_clock (s : St) (n : Nat) (r : Res) : (retireIn s n r).clock = s.clock := by
+  unfold retireIn; repeat' split
+  all_goals rfl
+
+@[simp] theorem settleCalls_cores (s : St) : (settleCalls s).cores = s.cores := by
+  rfl
+
+@[simp] theorem settleCalls_metas (s : St) : (settleCalls s).metas = s.metas := by
+  rfl
+
+@[simp] theorem settleCalls_incoming (s : St) : (settleCalls s).incoming = s.incoming := by
+  rfl
+
+@[simp] theorem settleCalls_byID (s : St) : (settleCalls s).byID = s.byID := by
+  rfl
+
+@[simp] theorem settleCalls_panicIncoming (s : St) : (settleCalls s).panicIncoming = s.panicIncoming := by
+  rfl
+
+@[simp] theorem settleCalls_reader (s : St) : (settleCalls s).reader = s.reader := by
+  rfl
+
+@[simp] theorem settleCalls_queue (s : St) : (settleCalls s).queue = s.queue := by
+  rfl
+
+@[simp] theorem settleCalls_disp (s : St) : (settleCalls s).disp = s.disp := by
+  rfl
+
+@[simp] theorem settleCalls_handlerRunning (s : St) : (settleCalls s).handlerRunning = s.handlerRunning := by
+  rfl
+
+@[simp] theorem settleCalls_cancels (s : St) : (settleCalls s).cancels = s.cancels := by
+  rfl
+
+@[simp] theorem settleCalls_clock (s : St) : (settleCalls s).clock = s.clock := by
+  rfl
+
+@[simp] theorem settleWaiters_cores (s : St) : (settleWaiters s).cores = s.cores := by
+  unfold settleWaiters; split <;> rfl
+
+@[simp] theorem settleWaiters_metas (s : St) : (settleWaiters s).metas = s.metas := by
+  unfold settleWaiters; split <;> rfl
+
+@[simp] theorem settleWaiters_incoming (s : St) : (settleWaiters s).incoming = s.incoming := by
+  unfold settleWaiters; split <;> rfl
+
+@[simp] theorem settleWaiters_byID (s : St) : (settleWaiters s).byID = s.byID := by
+  unfold settleWaiters; split <;> rfl
+
+@[simp] theorem settleWaiters_panicIncoming (s : St) : (settleWaiters s).panicIncoming = s.panicIncoming := by
+  unfold settleWaiters; split <;> rfl
+
+@[simp] theorem settleWaiters_reader (s : St) : (settleWaiters s).reader = s.reader := by
+  unfold settleWaiters; split <;> rfl
+
+@[simp] theorem settleWaiters_queue (s : St) : (settleWaiters s).queue = s.queue := by
+  unfold settleWaiters; split <;> rfl
+
+@[simp] theorem settleWaiters_disp (s : St) : (settleWaiters s).disp = s.disp := by
+  unfold settleWaiters; split <;> rfl
+
+@[simp] theorem settleWaiters_handlerRunning (s : St) : (settleWaiters s).handlerRunning = s.handlerRunning := by
+  unfold settleWaiters; split <;> rfl
+
+@[simp] theorem settleWaiters_cancels (s : St) : (settleWaiters s).cancels = s.cancels := by
+  unfold settleWaiters; split <;> rfl
+
+@[simp] theorem settleWaiters_clock (s : St) : (settleWaiters s).clock = s.clock := by
+  unfold settleWaiters; split <;> rfl
 
 end Conn
